@@ -188,6 +188,28 @@ fn behaviour(p: &ProbePool, c: &LimCase, other_sig: Option<(&str, &str, &str)>) 
         s2[l / 2] ^= 1;
         let v2 = p.call(&json!({"op": "verify", "hash": hname(c.hash), "msg": msg, "sig": gen::hex(&s2), "pk": pk}));
         out.insert("verify_corrupted".into(), v2);
+        // the level count of the public key / the signature changed (the limited build must not
+        // clamp or wrap what the default build refuses)
+        let pkb = crate::gen::unhex(pk);
+        let sgb = crate::gen::unhex(sig);
+        let l = c.levels.len() as u32;
+        let mut tampered = Vec::new();
+        for nl in [l + 1, l + 2, 9, 255, 256 + l, 0x0100_0000 | l, u32::MAX, 0, l.wrapping_sub(1)] {
+            if nl == l {
+                continue;
+            }
+            let mut p2 = pkb.clone();
+            p2[0..4].copy_from_slice(&nl.to_be_bytes());
+            let r = p.call(&json!({"op": "verify", "hash": hname(c.hash), "msg": msg, "sig": sig, "pk": gen::hex(&p2)}));
+            tampered.push(json!({"pk_level": nl, "verify": r}));
+        }
+        for nn in [l, l + 1, 255 + l, u32::MAX] {
+            let mut s3 = sgb.clone();
+            s3[0..4].copy_from_slice(&nn.to_be_bytes());
+            let r = p.call(&json!({"op": "verify", "hash": hname(c.hash), "msg": msg, "sig": gen::hex(&s3), "pk": pk}));
+            tampered.push(json!({"sig_nspk": nn, "verify": r}));
+        }
+        out.insert("verify_level_tampered".into(), Value::Array(tampered));
     }
     let mut v = Value::Object(out);
     strip_ids(&mut v);
@@ -267,6 +289,12 @@ pub fn check_case(default: &ProbePool, cfg: &ProbePool, c: &LimCase) -> Verdict 
         let vc = &b["verify_corrupted"];
         if vc["function"] != json!(false) {
             return fail("inside-limits verify-corrupted", "the constrained build accepts a corrupted signature");
+        }
+        for t in b["verify_level_tampered"].as_array().map(|a| a.to_vec()).unwrap_or_default() {
+            let v = &t["verify"];
+            if v["function"] != json!(false) || v["key_signature"] != json!(false) || v["key_verifier_signature"] != json!(false) {
+                return fail("level-count-tampered accepted", format!("the constrained build accepts a signature although the level count of key / signature was changed: {} ({})", t, what));
+            }
         }
         pass(format!("{}|inside|L{}", c.config, c.levels.len()), true)
     } else {
